@@ -116,3 +116,27 @@ def describe(rec):
         return "?"
     keys = ("op", "c", "p", "n", "t", "after", "new", "out", "ex")
     return " ".join("%s=%s" % (k, rec[k]) for k in keys if k in rec)
+
+
+def chain_mem_scripts(scripts, pre_len, crates=(2, 3), group=25):
+    """Scripts of a membership-only graph (Pre = "rich") share their preamble; after each script the
+    abstract state is brought back to the preamble state by clear_tracks on every crate, so many
+    scripts can be chained into one execution (membership-row ids keep growing, which only adds
+    diversity).  Validation stays exact: TLC tracks the abstract state through the whole chain."""
+    out = []
+    cur = None
+    n = 0
+    for sc in scripts:
+        pre, suf = sc[:pre_len], sc[pre_len:]
+        if cur is None:
+            cur = list(pre)
+            n = 0
+        cur.extend(suf)
+        cur.extend({"op": "clear_tracks", "c": c, "exp": "ok"} for c in crates)
+        n += 1
+        if n >= group:
+            out.append(cur)
+            cur = None
+    if cur:
+        out.append(cur)
+    return out
